@@ -258,3 +258,62 @@ func TestVerifRoach(t *testing.T) {
 		roRun(i+1, &scens[i], rng)
 	}
 }
+
+// TestVerifAbacoGroupUnwrap: the path from the Abaco unwrap OPTIONS to the per-channel unwrappers (NewAbacoGroup): groups
+// that start at channel 0 and groups that do not, with an inversion list that names channels of both.  Each channel's
+// unwrapper is fed a walk in several calls; the Config line states what was ASKED for (is the channel number in the
+// inversion list?), so a channel that was given another channel's settings is rejected by PhaseUnwrapTrace.
+func TestVerifAbacoGroupUnwrap(t *testing.T) {
+	rng := vRng()
+	id := 800000
+	for k := 0; k < vNRandom; k++ {
+		sign := 1 - 2*rng.Intn(2)
+		layouts := [][2]int{{0, 4}, {4, 4}, {10, 3}, {1, 2}}
+		inv := []int{}
+		for c := 0; c < 14; c++ {
+			if rng.Intn(3) == 0 {
+				inv = append(inv, c)
+			}
+		}
+		opts := AbacoUnwrapOptions{RescaleRaw: true, Unwrap: true, ResetAfter: 20000, PulseSign: sign, InvertChan: inv}
+		isInv := map[int]bool{}
+		for _, c := range inv {
+			isInv[c] = true
+		}
+		for _, lay := range layouts {
+			g := NewAbacoGroup(GroupIndex{Firstchan: lay[0], Nchan: lay[1]}, opts)
+			for i := 0; i < lay[1]; i++ {
+				id++
+				n := 40 + rng.Intn(200)
+				inp := make([]int, n)
+				x := rng.Intn(65536)
+				for j := range inp {
+					if rng.Intn(2) == 0 {
+						x += rng.Intn(9000) - 3000
+					} else {
+						x += 8192 + rng.Intn(9) - 4
+					}
+					x = ((x % 65536) + 65536) % 65536
+					inp[j] = x
+				}
+				out := []int{}
+				for pos := 0; pos < n; {
+					m := 1 + rng.Intn(60)
+					if pos+m > n {
+						m = n - pos
+					}
+					buf := make([]RawType, m)
+					for j := range buf {
+						buf[j] = RawType(inp[pos+j])
+					}
+					g.unwrap[i].UnwrapInPlace(&buf)
+					out = append(out, vInts16(buf)...)
+					pos += m
+				}
+				vEmit(vmap{"ev": "Config", "scen": id, "origin": "abaco-group", "frac": abacoFractionBits, "drop": abacoBitsToDrop, "enable": true, "bias": 0, "biaslevel": 0,
+					"resetafter": 20000, "pulsepos": sign > 0, "invert": isInv[lay[0]+i]})
+				vEmit(vmap{"ev": "Run", "split": []int{-1}, "inp": inp, "out": out})
+			}
+		}
+	}
+}
